@@ -271,6 +271,7 @@ package pokerface
 //@    && (g.gs.Status.CurrentEvent == "BlindsRequested" ==> g.gs.Status.Round == "preflop" && ZEROBETS(g) && g.gs.Status.PreviousRaiseSize == 0)
 //@    && (g.gs.Status.CurrentEvent == "ReadyRequested" && g.gs.Status.Round == "" ==> ZEROBETS(g))
 //@    && (g.gs.Status.CurrentEvent == "RoundClosed" ==> g.gs.Status.Round != "")
+//@    && (g.gs.Status.CurrentEvent == "GameClosed" ==> g.gs.Result != nil)
 
 // what the RoundStarted / RoundClosed handlers leave untouched
 //@ pred QUIET(g) = unchanged(PlayerState.Wager) && unchanged(PlayerState.Pot) && unchanged(PlayerState.InitialStackSize)
@@ -365,6 +366,7 @@ package pokerface
 //@             ==> g.gs.Status.CurrentWager == old(g.gs.Status.CurrentWager) && g.gs.Status.PreviousRaiseSize == old(g.gs.Status.PreviousRaiseSize)
 //@                 && g.gs.Status.CurrentRoundPot == old(g.gs.Status.CurrentRoundPot)
 //@   ensures event == GameEvent_BlindsPaid ==> g.gs.Status.CurrentEvent == "ReadyRequested"
+//@   ensures [C06] old(g.gs.Status.Round) != "" ==> g.gs.Status.Round == old(g.gs.Status.Round)
 //@   -- blinds are requested before the first betting round whenever any blind is positive
 //@   ensures [C13] ANYBLIND(g) && (event == GameEvent_AntePaid || event == GameEvent_PreflopRoundEntered
 //@             || (event == GameEvent_RoundInitialized && old(g.gs.Status.Round) == "preflop"))
@@ -398,7 +400,7 @@ package pokerface
 //@   ensures len(g.gs.Meta.Deck) == old(len(g.gs.Meta.Deck))
 //@   ensures unchanged(PlayerState.Pot) && unchanged(PlayerState.Wager) && unchanged(PlayerState.InitialStackSize)
 //@             && g.gs.Status.CurrentWager == old(g.gs.Status.CurrentWager) && g.gs.Status.PreviousRaiseSize == old(g.gs.Status.PreviousRaiseSize)
-//@             && g.gs.Status.CurrentRoundPot == old(g.gs.Status.CurrentRoundPot)
+//@             && g.gs.Status.CurrentRoundPot == old(g.gs.Status.CurrentRoundPot) && g.gs.Status.Round == old(g.gs.Status.Round)
 //@   loop 1 invariant 0 <= g.gs.Status.CurrentPlayer && g.gs.Status.CurrentPlayer < len(g.gs.Players) && OTHERSIDLE(g)
 
 //@ func (*game).UpdateCombinationOfAllPlayers(g) (err)
@@ -425,7 +427,7 @@ package pokerface
 
 //@ func (*player).Pass(p) (err)
 //@   props C04 C11
-//@   requires WFP(p) && ROUNDINV(p.game)
+//@   requires WFP(p) && WAITINV(p.game)
 //@   modifies @ACTION
 //@   allocs Action, elems(string), elems(Player), settlement.Result
 //@   ensures [C04] !old(hasStr(p.state.AllowedActions, "pass")) ==> err != nil
@@ -435,7 +437,7 @@ package pokerface
 
 //@ func (*player).Fold(p) (err)
 //@   props C04 C11
-//@   requires WFP(p) && ROUNDINV(p.game)
+//@   requires WFP(p) && WAITINV(p.game)
 //@   modifies @ACTION
 //@   allocs Action, elems(string), elems(Player), settlement.Result
 //@   ensures [C04] !old(hasStr(p.state.AllowedActions, "fold")) ==> err == ErrInvalidAction && UNCH()
@@ -444,7 +446,7 @@ package pokerface
 
 //@ func (*player).Check(p) (err)
 //@   props C04 C11
-//@   requires WFP(p) && ROUNDINV(p.game)
+//@   requires WFP(p) && WAITINV(p.game)
 //@   modifies @ACTION
 //@   allocs Action, elems(string), elems(Player), settlement.Result
 //@   ensures [C04] !old(hasStr(p.state.AllowedActions, "check")) ==> err == ErrInvalidAction && UNCH()
@@ -453,7 +455,7 @@ package pokerface
 
 //@ func (*player).Call(p) (err)
 //@   props C04 C11 C12 C01
-//@   requires WFP(p) && ROUNDINV(p.game) && p.game.gs.Meta.Blind.BB >= 0
+//@   requires WFP(p) && WAITINV(p.game)
 //@   modifies @ACTION
 //@   allocs Action, elems(string), elems(Player), settlement.Result
 //@   ensures [C04] !old(hasStr(p.state.AllowedActions, "call")) ==> err == ErrInvalidAction && UNCH()
@@ -464,7 +466,7 @@ package pokerface
 
 //@ func (*player).Allin(p) (err)
 //@   props C04 C11 C12 C01
-//@   requires WFP(p) && ROUNDINV(p.game)
+//@   requires WFP(p) && WAITINV(p.game)
 //@   modifies @ACTION
 //@   allocs Action, elems(string), elems(Player), settlement.Result
 //@   ensures [C04] !old(hasStr(p.state.AllowedActions, "allin")) ==> err == ErrInvalidAction && UNCH()
@@ -475,7 +477,7 @@ package pokerface
 
 //@ func (*player).Bet(p, chips) (err)
 //@   props C04 C11 C12 C01
-//@   requires WFP(p) && ROUNDINV(p.game)
+//@   requires WFP(p) && WAITINV(p.game)
 //@   modifies @ACTION
 //@   allocs Action, elems(string), elems(Player), settlement.Result
 //@   ensures [C04] !old(hasStr(p.state.AllowedActions, "bet")) ==> err == ErrInvalidAction && UNCH()
@@ -486,7 +488,7 @@ package pokerface
 
 //@ func (*player).Raise(p, chipLevel) (err)
 //@   props C04 C12 C01
-//@   requires WFP(p) && ROUNDINV(p.game) && p.game.gs.Meta.Blind.BB >= 0
+//@   requires WFP(p) && WAITINV(p.game)
 //@   modifies @ACTION
 //@   allocs Action, elems(string), elems(Player), settlement.Result
 //@   ensures [C04] !old(hasStr(p.state.AllowedActions, "raise")) ==> err == ErrInvalidAction && UNCH()
@@ -510,7 +512,7 @@ package pokerface
 
 //@ func (*player).Pay(p, chips) (err)
 //@   props C04 C12
-//@   requires WFP(p) && ROUNDINV(p.game)
+//@   requires WFP(p) && WAITINV(p.game)
 //@   modifies @ACTION
 //@   allocs Action, elems(string), elems(Player), settlement.Result
 //@   ensures [C04] err == ErrInvalidAction && UNCH()
@@ -642,6 +644,13 @@ package pokerface
 //@   allocs elems(string), elems(Player), settlement.Result, Action
 //@   ensures [C04] old(g.gs.Status.CurrentEvent) != "RoundClosed" ==> err == ErrNotClosedRound && UNCH()
 //@   ensures [C06] old(g.gs.Status.CurrentEvent) == "RoundClosed" ==> err == nil && WAITINV(g)
+//@   -- streets run strictly preflop, flop, turn, river; after the river (or when the hand is decided) the hand is closed
+//@   ensures [C06] old(g.gs.Status.CurrentEvent) == "RoundClosed" ==> g.gs.Status.CurrentEvent == "GameClosed"
+//@             || (old(g.gs.Status.Round) == "preflop" && g.gs.Status.Round == "flop")
+//@             || (old(g.gs.Status.Round) == "flop" && g.gs.Status.Round == "turn")
+//@             || (old(g.gs.Status.Round) == "turn" && g.gs.Status.Round == "river")
+//@   ensures [C06] old(g.gs.Status.CurrentEvent) == "RoundClosed" && old(g.gs.Status.Round) == "river" ==> g.gs.Status.CurrentEvent == "GameClosed"
+//@   ensures [C06] g.gs.Status.CurrentEvent == "GameClosed" ==> g.gs.Result != nil
 
 // what NewGame/ApplyOptions hand to Start: structure without the checks Start itself performs
 //@ pred WFG0(g) = g != nil && g.gs != nil && g.players != nil
